@@ -575,11 +575,6 @@ def check_hypotheses(ctx, case, S):
                  f"algebraic hypothesis of the closed-form theorem fails on the real operators for {tag}", case=case)
 
 
-MODEL_BASIS = {  # gate variants whose dense basis coincides with the Lean model's matrices (after a permutation)
-    ("hopping", "spinless"): None, ("occupation", "spinless"): None,
-}
-
-
 def model_perm(case, alg):
     """permutation P with dense_real = P model P^T if the Lean model has concrete matrices for this variant."""
     kind, cls, sym, extra = case["kind"], case["cls"], case["sym"], case["extra"]
@@ -625,7 +620,6 @@ def eval_gate_case(ctx, case, forms, model_res=None):
                      case=dict(case, which=which), concrete=True)
             return
     got = mats.get("before-decomposition", mats.get("recombined", mats.get("local")))
-    # real dtype: real parameters must give a real gate
     S = structure_matrices(ops, case)
     if S is not None:
         check_hypotheses(ctx, case, S)
@@ -674,11 +668,8 @@ def check_eigh_contract(ctx, ops, case, H, nsites):
         else:
             Hy = real_hamiltonian(ops, case["cls"], case["terms"], 1) + 0 * ops.I()
         D, U = yastn.eigh(Hy, axes=(0, 1))
-        UU = (U.conj().transpose(axes=(1, 0)) @ U)
-        one = yastn.eye(config=U.config, legs=UU.get_legs(), isdiag=False) if False else None
         rec = U @ D @ U.conj().transpose(axes=(1, 0))
         e1 = float((rec - Hy).norm())
-        n = float((U.conj().transpose(axes=(1, 0)) @ U).trace().real) if False else None
         Ud = U.to_numpy()
         e2 = float(np.abs(Ud.conj().T @ Ud - np.eye(Ud.shape[1])).max())
         Dd = D.to_numpy()
